@@ -21,7 +21,7 @@ def queries():
             modes = [None] if src == 'l1' else [0, 1, 2]
             for mode in modes:
                 nm = 'conv_%s_%s_%s_%s' % (src, dst, 'm%d' % mode if mode is not None else 'any', tier)
-                qs.append(Q(nm, 'conv.c', 'utf.cpp', defs=cc.conv_defs(src, dst, n, mode, relax_identity=True), unwind=n + 2, hunwind=4 * n + 4, tiers=(tier,),
+                qs.append(Q(nm, 'conv.c', 'utf.cpp', mem_gb=12, defs=cc.conv_defs(src, dst, n, mode, relax_identity=True), unwind=n + 2, hunwind=4 * n + 4, tiers=(tier,),
                             bound={'pair': '%s->%s' % (src, dst), 'max_units': n, 'mode': mode},
                             timeout=300 if tier == 'quick' else 1500))
     return qs
